@@ -204,6 +204,21 @@ def run(ctx: Ctx):
             lam = g[i] * bt[i] * 299792458.0 * 2.903e-13 * 1e-3
             if not close(ln[i], -lam * np.log(u[i]), 1e-12, 1e-300):
                 ctx.violation("EAS.altDec", "len-formula", "decay length != -gamma beta c tau0 ln u", case)
+    # one deviate for the whole batch (a scalar, or an array of one element): it is the u of every event, not replaced by fresh draws
+    for u_s in (1.0, 0.5, float(np.exp(-1.0)), 1e-3):
+        for form, uarg in (("python float", u_s), ("array of one element", np.array([u_s]))):
+            ctx.case(("scalar-u", u_s, form), None); ctx.count("scalar_u_calls")
+            try:
+                a_s, l_s = eas.altDec(beta[:32].copy(), bt[:32].copy(), g[:32].copy(), uarg)
+                lam_s = g[:32] * bt[:32] * 299792458.0 * 2.903e-13 * 1e-3
+                l_s = np.broadcast_to(np.asarray(l_s, dtype=np.float64), (32,))
+                if not np.allclose(l_s, -lam_s * np.log(u_s), rtol=1e-12, atol=1e-300):
+                    k_ = int(np.argmax(np.abs(l_s + lam_s * np.log(u_s))))
+                    ctx.violation("EAS.altDec", "len-formula", f"with u = {u_s!r} given as a {form} for a batch of 32 events the decay length is not -gamma beta c tau0 ln u",
+                                  {"u": u_s, "given_as": form, "tauLorentz": float(g[k_]), "tauBeta": float(bt[k_]), "lenDec": float(l_s[k_]), "expected": float(-lam_s[k_] * np.log(u_s))})
+                    break
+            except Exception as ex:  # noqa
+                ctx.notes.append(f"EAS.altDec rejects u given as a {form}: {type(ex).__name__} (not required by the property)")
     # the emergence angle given as an astropy quantity (degrees, arc minutes, radians): the same angle gives the same decay point
     from astropy import units as aunits
     kq = min(m, 64)
